@@ -121,6 +121,18 @@ def w_ascii(exe, doms, src):
                     else:
                         part["viol"].append(("ascii/6531-rejects-without-idn-error", {"domain": core.b2s(d)},
                                              {"6531": h6, MODES[mi]: hm, "tld_check": t, "source": src}))
+        # in one mode the *syntactic* verdict cannot depend on tld_check: what is accepted without TLD checking can only be refused for
+        # its TLD (class not allowed, unknown TLD, not a FQDN) with it, and what is refused without it stays refused
+        for mi in range(4):
+            off, on = r["hl"][str(mi * 2)], r["hl"][str(mi * 2 + 1)]
+            cnt["tld-switch.compared"] += 1
+            name = mdl.eeav_name.get(on[1], "")
+            if off[0] and not on[0] and not (name.startswith("EEAV_TLD_") or name == "EEAV_DOMAIN_NOT_FQDN"):
+                part["viol"].append(("ascii/%s-syntax-verdict-depends-on-tld_check" % MODES[mi], {"domain": core.b2s(d), "mode": MODES[mi]},
+                                     {"tld_off": off, "tld_on": on, "source": src}))
+            if not off[0] and on[0]:
+                part["viol"].append(("ascii/%s-refused-without-tld-check-accepted-with-it" % MODES[mi], {"domain": core.b2s(d), "mode": MODES[mi]},
+                                     {"tld_off": off, "tld_on": on, "source": src}))
     part["distinct"] = len(set(doms))
     return part
 
@@ -158,6 +170,9 @@ def main(tier, seed):
     jobs = [(w_pairs, (exe, pairs[i:i + 800], "idn")) for i in range(0, len(pairs), 800)]
     # all-ASCII domains of the C04/C07 generators
     asc = set(domgen.host_pool_len()) | {d for d in gen.corpus_domains() if max(d) < 0x80}
+    # ASCII names IDNA2008 has an opinion about: hyphens in positions 3-4, A-labels in upper / mixed case, bogus Punycode
+    asc |= {b"ab--cd.com", b"a.ab--cd.org", b"XN--A.com", b"Xn--wgv71a119e-.jp", b"xn--a.com", b"XN--P1AI.com", b"a.xN--90ais", b"xn--.com", b"xn---a.com",
+            b"ab--.com", b"--ab.com", b"a--b.com", b"xn--80ak6aa92e.COM", b"XN--80AK6AA92E.com", b"xn--zzzzzzzzzz.com", b"www.xn--a-.example.org"}
     asc |= {b"".join(p) for p in __import__("itertools").product([b"a", b"1", b"-", b".", b"_", b"A"], repeat=4)}
     tl = TG.tld_domains("quick", rng, mdl)
     asc |= set(rng.sample(tl, min(len(tl), 6000 if tier == "quick" else 60000)))
